@@ -3,8 +3,6 @@ package main
 import (
 	"fmt"
 	"os"
-	"sync"
-	"time"
 
 	"verif/harness/h"
 )
@@ -21,41 +19,24 @@ func main() {
 	if err != nil {
 		panic(err)
 	}
-	frags := h.CoreFragments()
-	for _, workers := range []int{1, 4, 16} {
-		var wg sync.WaitGroup
-		t0 := time.Now()
-		var tNew, tApply, tSnap, tClose time.Duration
-		var mu sync.Mutex
-		for i := 0; i < workers; i++ {
-			wg.Add(1)
-			go func() {
-				defer wg.Done()
-				for j := 0; j < 50; j++ {
-					a := time.Now()
-					w, err := h.NewWorld(u, cc, h.CoreInitials()[1].Leaves, h.WorldOpts{Fragments: frags})
-					if err != nil {
-						panic(err)
-					}
-					b := time.Now()
-					w.Apply(h.Op{Intents: []h.IntentSpec{{Owner: "A", Prio: 10, Frag: "fa"}}})
-					w.Apply(h.Op{Intents: []h.IntentSpec{{Owner: "B", Prio: 20, Frag: "fb"}}})
-					c := time.Now()
-					w.Snapshot()
-					d := time.Now()
-					w.Close()
-					e := time.Now()
-					mu.Lock()
-					tNew += b.Sub(a)
-					tApply += c.Sub(b)
-					tSnap += d.Sub(c)
-					tClose += e.Sub(d)
-					mu.Unlock()
-				}
-			}()
+	frags := h.ConstraintFragments()
+	for _, f := range append([]string{"ok-refs", "ok-mand"}, h.InvalidFragOrder...) {
+		for _, rep := range []bool{false, true} {
+			w, err := h.NewWorld(u, cc, nil, h.WorldOpts{Fragments: frags})
+			if err != nil {
+				panic(err)
+			}
+			op := h.Op{Intents: []h.IntentSpec{{Owner: "A", Prio: 10, Frag: f}}}
+			if rep {
+				op = h.Op{Replace: &h.IntentSpec{Owner: "replace", Frag: f}}
+			}
+			out := w.Apply(op)
+			errs := map[string][]string{}
+			for n, ir := range out.Rsp.GetIntents() {
+				errs[n] = ir.GetErrors()
+			}
+			fmt.Printf("%-16s replace=%-5v rejected=%-5v err=%v conv=%v intentErrs=%v\n", f, rep, out.Rejected(), out.Err, out.ConvErr, errs)
+			w.Close()
 		}
-		wg.Wait()
-		n := time.Duration(workers * 50)
-		fmt.Printf("workers=%d wall=%v per-exec: new=%v apply2=%v snap=%v close=%v\n", workers, time.Since(t0), tNew/n, tApply/n, tSnap/n, tClose/n)
 	}
 }
